@@ -14,7 +14,7 @@ import (
 
 func init() {
 	register("C14",
-		"CHUNK-1: every exit of GoBackNConn.Send that can report success is dominated by a hand-off of a packet whose FinalChunk flag is known to be set (so an empty payload, an exact multiple and every other length end with exactly one final packet). CHUNK-2: every packet payload is the caller's slice itself or data[off:hi] with off the running offset, the offset advances by exactly the chunk length, chunks are at most maxChunkSize and the final flag is set exactly on the leg where the remainder fits. CHUNK-3: in Recv the accumulator of a multi-packet message is connection state that is written back before the next wait, is reset when the message is returned, and has no other writer - so an error return inside a message loses nothing; the mirror case for Send (an error after at least one non-final chunk leaves the peer with a dangling prefix) is reported as a finding. CHUNK-4: Recv reports a message only under the fact FinalChunk of the packet just received, appends every received payload whole and in order, and ping packets are never handed to Recv. CHUNK-2 also: maxChunkSize is stored exactly as configured; CHUNK-3 also: every path from the append to the success return resets the accumulator. Not decided: delivery itself (C01) and the interplay with transport faults.",
+		"CHUNK-1: every exit of GoBackNConn.Send that can report success is dominated by a hand-off of a packet whose FinalChunk flag is known to be set (so an empty payload, an exact multiple and every other length end with exactly one final packet). CHUNK-2: every packet payload is the caller's slice itself or data[off:hi] with off the running offset, the offset advances by exactly the chunk length, chunks are at most maxChunkSize and the final flag is set exactly on the leg where the remainder fits. CHUNK-3: in Recv the accumulator of a multi-packet message is connection state that is written back before the next wait, is reset when the message is returned, and has no other writer - so an error return inside a message loses nothing; the mirror case for Send (an error after at least one non-final chunk leaves the peer with a dangling prefix) is reported as a finding. CHUNK-4: Recv reports a message only under the fact FinalChunk of the packet just received, appends every received payload whole and in order, and ping packets are never handed to Recv. CHUNK-2 also: maxChunkSize is stored exactly as configured; CHUNK-3 also: every path from the append to the success return resets the accumulator. CHUNK-1 also: between a successful hand-off and the next one (or the success return) Send cannot fail. Not decided: delivery itself (C01) and the interplay with transport faults.",
 		[]string{"append(x, y...) appends y after x"},
 		runC14)
 }
